@@ -176,6 +176,14 @@ pub fn run(ctx: &Ctx) -> ! {
         eprintln!("[C03] seam B plan {tag} done at {:.1}s cpu {:.1}s", ctx.elapsed_s(), cpu_s());
     }
     all_found.extend(b_found.into_iter().map(|x| x.1));
+    // entry point: CertificateClient::verify_chain(hash), first request answered by the provider
+    let entry_pool: &seam_b::PoolB = if quick { &pool_b_small } else { &pool_b_large };
+    let entry_world: &World = if quick { &wb_small } else { &wb_large };
+    let (entry_rep, entry_found) = seam_b::entry_point_sweep(entry_pool, entry_world, threads);
+    b_calls += entry_rep.evaluations;
+    rep.merge(entry_rep);
+    all_found.extend(entry_found);
+    eprintln!("[C03] seam B entry point done at {:.1}s cpu {:.1}s", ctx.elapsed_s(), cpu_s());
     rep.extra("B_pool_members_with_valid_chain", json!(plans.iter().map(|(_, p, _)| p.chain_defect.iter().filter(|d| d.is_none()).count()).collect::<Vec<_>>()));
     // smallest counterexample of every key first (only the first few per key are written out)
     all_found.sort_by(|x, y| {
@@ -237,6 +245,20 @@ fn replay(ctx: &Ctx, mut rep: Report, v: &serde_json::Value, pool: &crate::pool:
                 for x in f.into_iter().filter(|x| x.replay["certificate"] == v["certificate"]) {
                     rep.push_violation(x);
                 }
+            }
+        }
+        "B-entry" => {
+            let requested = v["requested"].as_str().and_then(|l| seam_b::requested_from_label(pool_b, l));
+            let first = seam_b::entry_first_from_json(pool_b, &v["first_answer"]);
+            let (Some(requested), Some(first)) = (requested, first) else {
+                rep.machinery_error("replay: cannot parse entry-point case".into());
+                rep.finish(ctx)
+            };
+            let res = seam_b::run_entry(pool_b, &wb.genesis_vkey_hex, &requested, first);
+            rep.eval();
+            eprintln!("replay: CertificateClient::verify_chain({requested}) first answer {first:?} -> {:?} | requests={:?}", res.returned, res.requests.iter().map(|(h, a)| (h.get(..8).unwrap_or("").to_string(), *a)).collect::<Vec<_>>());
+            if let Some((key, what)) = seam_b::judge_entry(pool_b, &requested, &res) {
+                rep.violation(&key, what, v.clone());
             }
         }
         "B" => {
